@@ -1066,6 +1066,28 @@ class SimShutil:
         raise Unsimulated('shutil.%s is not simulated' % name)
 
 
+class SimFilecmp:
+    """filecmp.cmp inside the simulated directory (the real module would stat and open real paths)."""
+
+    def __init__(self, simos):
+        self._os = simos
+
+    def cmp(self, f1, f2, shallow=True):
+        s1, s2 = self._os.stat(f1), self._os.stat(f2)
+        if _stat.S_IFMT(s1.st_mode) != _stat.S_IFREG or _stat.S_IFMT(s2.st_mode) != _stat.S_IFREG:
+            return False
+        if s1.st_size != s2.st_size:
+            return False
+        fs = self._os._sim.fs
+        return bytes(fs.inodes[s1.st_ino].data) == bytes(fs.inodes[s2.st_ino].data)
+
+    def clear_cache(self):
+        pass
+
+    def __getattr__(self, name):
+        raise Unsimulated('filecmp.%s is not simulated' % name)
+
+
 class SimTempfile:
     """tempfile.mkstemp / NamedTemporaryFile-like creation inside the simulated directory."""
 
